@@ -5865,6 +5865,43 @@ let field_value raw =
 let sfield_pairs fs =
   map (fun f -> (f.s_name, (field_value f.s_raw))) fs
 
+(** val cl_values_rfc : (bytes * bytes) list -> n option list **)
+
+let cl_values_rfc fs =
+  map (fun nv -> cl_value (snd nv))
+    (filter (fun nv ->
+      same_name (fst nv)
+        (bs (String ((Ascii (true, true, false, false, false, true, true,
+          false)), (String ((Ascii (true, true, true, true, false, true,
+          true, false)), (String ((Ascii (false, true, true, true, false,
+          true, true, false)), (String ((Ascii (false, false, true, false,
+          true, true, true, false)), (String ((Ascii (true, false, true,
+          false, false, true, true, false)), (String ((Ascii (false, true,
+          true, true, false, true, true, false)), (String ((Ascii (false,
+          false, true, false, true, true, true, false)), (String ((Ascii
+          (true, false, true, true, false, true, false, false)), (String
+          ((Ascii (false, false, true, true, false, true, true, false)),
+          (String ((Ascii (true, false, true, false, false, true, true,
+          false)), (String ((Ascii (false, true, true, true, false, true,
+          true, false)), (String ((Ascii (true, true, true, false, false,
+          true, true, false)), (String ((Ascii (false, false, true, false,
+          true, true, true, false)), (String ((Ascii (false, false, false,
+          true, false, true, true, false)),
+          EmptyString)))))))))))))))))))))))))))))) fs)
+
+(** val cl_consistent_rfc : (bytes * bytes) list -> bool **)
+
+let cl_consistent_rfc fs =
+  match cl_values_rfc fs with
+  | [] -> true
+  | o :: r ->
+    (match o with
+     | Some n0 ->
+       forallb (fun o0 -> match o0 with
+                          | Some m -> N.eqb m n0
+                          | None -> false) r
+     | None -> false)
+
 (** val in_rng : byte -> n -> n -> bool **)
 
 let in_rng b lo0 hi =
